@@ -5,6 +5,7 @@ import (
 	"math"
 	"reflect"
 	"regexp"
+	"runtime"
 	"sort"
 	"strings"
 
@@ -60,8 +61,27 @@ type Dump struct {
 
 func recoverTo(dst *string) {
 	if r := recover(); r != nil {
-		*dst = fmt.Sprint(r)
+		*dst = fmt.Sprint(r) + " @" + PanicSite()
 	}
+}
+
+// PanicSite must be called from a deferred function while a panic is being
+// recovered: it returns the innermost /repo function on the panicking stack.
+func PanicSite() string {
+	var pcs [64]uintptr
+	n := runtime.Callers(2, pcs[:])
+	frames := runtime.CallersFrames(pcs[:n])
+	for {
+		fr, more := frames.Next()
+		fn := fr.Function
+		if strings.HasPrefix(fn, "github.com/scigolib/hdf5") && !strings.HasPrefix(fn, "github.com/scigolib/hdf5/verifsim") {
+			return strings.TrimPrefix(fn, "github.com/scigolib/hdf5")
+		}
+		if !more {
+			break
+		}
+	}
+	return "?"
 }
 
 // DumpOpts selects which reads are performed.
@@ -74,7 +94,7 @@ func DumpFile(path string, o DumpOpts) (d *Dump) {
 	d = &Dump{ByPath: map[string]*ObjDump{}}
 	defer func() {
 		if r := recover(); r != nil {
-			d.Panic = fmt.Sprint(r)
+			d.Panic = fmt.Sprint(r) + " @" + PanicSite()
 		}
 	}()
 	f, err := hdf5.Open(path)
